@@ -562,6 +562,59 @@ pub fn run(cx: &mut Cx) {
         families(cx, &st, &b, &mut counter, &format!("large-{k}"));
     }
 
+    // (3') a separator across a power-of-two offset: streams in which the two
+    // newlines of one separator lie on either side of 4 KiB, 8 KiB, ... 128 KiB
+    // (and of their small multiples), delivered so that the pending buffer is
+    // never empty when it gets there: a first write of 1-3 bytes and then pieces
+    // that end inside entries; also right behind the separator and in one call
+    if !mini {
+        let mut r = cx.shared_stream("aligned-separators");
+        let mut targets: Vec<usize> = vec![4096, 8192, 16_384, 24_576, 32_768, 65_536];
+        if cx.tier != Tier::Small {
+            targets.extend([12_288, 40_960, 49_152, 131_072]);
+        }
+        let mut k = 0u64;
+        for &t in &targets {
+            for shift in [-1isize, 0, 1] {
+                let st = gs::aligned_stream(&mut r, t, shift);
+                let at = (t as isize + shift) as usize;
+                cx.ev.max("max/stream_bytes", st.len() as u64);
+                let len = st.len();
+                let piece = |first: usize, size: usize| -> Vec<usize> {
+                    let mut v = vec![first];
+                    let mut c = first + size;
+                    while c < len {
+                        v.push(c);
+                        c += size;
+                    }
+                    v
+                };
+                let parts: Vec<Vec<usize>> = vec![
+                    vec![],
+                    vec![1],
+                    vec![1, at + 1],
+                    vec![2, at],
+                    vec![3, at - 1, at + 1],
+                    piece(1, 1000),
+                    piece(2, 777),
+                    piece(1, 4096),
+                    piece(3, 8192),
+                    vec![1, at + 1 + (len - at - 1) / 2],
+                ];
+                for cuts in parts {
+                    k += 1;
+                    if !cx.mine(k) {
+                        continue;
+                    }
+                    if cuts.iter().any(|c| *c == 0 || *c >= len) || cuts.windows(2).any(|w| w[0] >= w[1]) {
+                        continue;
+                    }
+                    case(cx, &st, "separator_across_power_of_two", cuts);
+                }
+            }
+        }
+    }
+
     // (4) huge streams (70 KiB - 1 MiB, hundreds to thousands of entries)
     // written in few, large chunks: one call; a head of about 4 KiB ... 1 MiB
     // (each power of two +-2, and on / next to the entry boundary after it)
